@@ -805,7 +805,10 @@ def get_expr_ids(e):
 
 def test_set(e, v, tks, result):
     if not v in tks:
-        return e == v
+        # (a successful match returns the bindings, even when there are none)
+        if e == v:
+            return result
+        return False
     if v in result and result[v] != e:
         return False
     result[v] = e
@@ -832,13 +835,20 @@ def MatchExpr(e, m, tks, result = None):
             return False
         for a1, a2 in zip(e.args, m.args):
             r = MatchExpr(a1, a2, tks, result)
-            if r == False:
+            if r is False:
                 return False
         return result
     elif isinstance(e, ExprMem):
         if not isinstance(m, ExprMem):
             return False
-        if e.size != m.size or e.segm != m.segm:
+        if e.size != m.size:
+            return False
+        if isinstance(e.segm, Expr) and isinstance(m.segm, Expr):
+            # the segment selector is a sub-expression
+            r = MatchExpr(e.segm, m.segm, tks, result)
+            if r is False:
+                return False
+        elif e.segm != m.segm:
             return False
         return MatchExpr(e.arg, m.arg, tks, result)
     elif isinstance(e, ExprSlice):
@@ -850,12 +860,13 @@ def MatchExpr(e, m, tks, result = None):
     elif isinstance(e, ExprCond):
         if not isinstance(m, ExprCond):
             return False
+        # (an empty dictionary of bindings is a success)
         r = MatchExpr(e.cond, m.cond, tks, result)
-        if not r: return False
+        if r is False: return False
         r = MatchExpr(e.src1, m.src1, tks, result)
-        if not r: return False
+        if r is False: return False
         r = MatchExpr(e.src2, m.src2, tks, result)
-        if not r: return False
+        if r is False: return False
         return result
     elif isinstance(e, ExprCompose):
         if not isinstance(m, ExprCompose):
@@ -866,11 +877,17 @@ def MatchExpr(e, m, tks, result = None):
             if a1[1] != a2[1] or a1[2] != a2[2]:
                 return False
             r = MatchExpr(a1[0], a2[0], tks, result)
-            if not r:
+            if r is False:
                 return False
         return result
+    elif isinstance(e, ExprAff):
+        if not isinstance(m, ExprAff):
+            return False
+        r = MatchExpr(e.dst, m.dst, tks, result)
+        if r is False: return False
+        return MatchExpr(e.src, m.src, tks, result)
     else:
-        fds
+        return False
 if __name__ == '__main__':
     x = ExprId('x')
     y = ExprId('y')
